@@ -48,9 +48,11 @@ Theorem C06_later_operations_cannot_change_past_id : forall v pub unpub ext unpu
 Proof. exact later_ops_cannot_change_past_id. Qed.
 Print Assumptions C06_later_operations_cannot_change_past_id.
 
-(* the time filter in the source (re-translated on every run) is "anchored at or before T" *)
+(* the time filter in the source (re-translated on every run) is "anchored at or before T", for every int64 value of
+   time.Time.Unix() - negative before 1970, where it selects nothing (defect F14 until c49cbc4: the uint64 conversion
+   wrapped around and selected everything; the theorem then needed 0 <= vt) *)
 Theorem C06_code_time_filter : forall p vt o,
-  0 <= vt < 2^64 -> gen_processor_versionTimeGuard p vt o = (time o <=? vt).
+  - 2^63 <= vt < 2^63 -> 0 <= time o -> gen_processor_versionTimeGuard p vt o = (time o <=? vt).
 Proof. exact processor_versionTimeGuard_tie. Qed.
 Print Assumptions C06_code_time_filter.
 
